@@ -18,6 +18,7 @@ impl Zero for i64 {
 /// the inherent methods of i64 (they take precedence over num_traits::Signed)
 pub assume_specification [i64::is_positive] (x: i64) -> (r: bool) ensures r == (x > 0);
 pub assume_specification [i64::is_negative] (x: i64) -> (r: bool) ensures r == (x < 0);
+pub assume_specification [i64::signum] (x: i64) -> (r: i64) ensures r == (if x > 0 { 1i64 } else if x < 0 { -1i64 } else { 0i64 });
 
 pub struct P<W, R, T> { pub w: Ghost<W>, pub r: Ghost<R>, pub t: Ghost<T> }
 pub enum XSequence<W, R, T> { Empty, Range(i64, i64, i64), Other(P<W, R, T>) }
